@@ -307,6 +307,8 @@ impl ForwardedStreamSink {
 
         if (100..200).contains(&response.status.as_u16()) {
             state.respond.send_intermediate_response(response)?;
+            // the rest of the chunk (the next response head) can be taken right away
+            self.fake_unsent = !tail.is_empty();
             return Ok(tail);
         }
 
